@@ -1049,8 +1049,8 @@ func (p *parser) scanGroupOpen() (*RegexNode, error) {
 					}
 
 					if p.maintainCaptureOrder && capnum != 0 {
-						// the pre-scan filed the digits as a name, in pattern order
-						if capname := strconv.Itoa(capnum); p.isCaptureName(capname) {
+						// the pre-scan filed the digits as a name, in pattern order (unless they start with a zero)
+						if capname := strconv.Itoa(capnum); ch != '0' && p.isCaptureName(capname) {
 							capnum = p.captureSlotFromName(capname)
 						} else {
 							capnum = -1
